@@ -104,11 +104,20 @@ pub fn payload_for_target(v: usize, level: usize, target: usize, seed: u64, k_ov
     payload_for_data_codewords(v, level, &data_codewords_for_target_seeded(v, level, target, seed, k_override))
 }
 
-pub const CW_SHAPE_COUNT: usize = 8;
+pub const CW_SHAPE_COUNT: usize = 11;
 pub const CW_SHAPE_NAMES: [&str; CW_SHAPE_COUNT] = [
     "every-block-pad-pattern", "pad-pattern-except-last-byte-of-one-block", "pad-pattern-phase-11", "zero-blocks-after-the-first", "one-zero-block-in-the-middle",
     "identical-blocks", "short-block-equals-head-of-long-block", "leading-zero-bytes-in-every-block",
+    "block-prefix-is-itself-a-codeword-then-zero", "block-prefix-is-itself-a-codeword-then-data", "running-remainder-leads-with-zero",
 ];
+
+/// the first three data codewords of a capacity-filling byte-mode symbol (mode indicator + count + 4 payload bits)
+fn byte_header(v: usize, level: usize) -> [u8; 3] {
+    let len = tables::capacity(v, level, BYTE);
+    let cci = tables::cci_bits(v, BYTE);
+    let bits: u32 = if cci == 8 { (0b0100 << 20) | ((len as u32) << 12) } else { (0b0100 << 20) | ((len as u32) << 4) };
+    [(bits >> 16) as u8, (bits >> 8) as u8, bits as u8]
+}
 
 /// Data codewords with a prescribed per-block shape (block boundaries from the oracle's Table 9).
 pub fn data_codewords_for_shape(v: usize, level: usize, shape: usize, seed: u64) -> Vec<u8> {
@@ -145,9 +154,54 @@ pub fn data_codewords_for_shape(v: usize, level: usize, shape: usize, seed: u64)
                 }
             }
             5 | 6 => proto[..len].to_vec(),
-            _ => {
+            7 => {
                 let z = 1 + rng.below(len.min(6));
                 (0..len).map(|i| if i < z { 0 } else { rng.next_u64() as u8 }).collect()
+            }
+            8 | 9 => {
+                // k data bytes followed by exactly their own EC bytes: the long division's running remainder is
+                // zero at that point; then a zero byte (8) or data (9), then more data. Block 0 starts with the
+                // bytes the byte-mode header will put there anyway, so the shape survives the trip through the API.
+                let ec = lay.ec_per_block;
+                let mut blk: Vec<u8> = (0..len).map(|_| 1 + (rng.next_u64() % 255) as u8).collect();
+                if b == 0 {
+                    let h = byte_header(v, level);
+                    blk[0] = h[0];
+                    blk[1] = h[1];
+                    blk[2] = (h[2] & 0xf0) | (blk[2] & 0x0f);
+                }
+                if len >= ec + 5 {
+                    let k = 3 + rng.below(len - ec - 4);
+                    let rem = oracle::gf::rs_remainder(&blk[..k], ec);
+                    blk[k..k + ec].copy_from_slice(&rem);
+                    if shape == 8 {
+                        blk[k + ec] = 0;
+                    }
+                }
+                blk
+            }
+            _ => {
+                // at several positions the next byte equals the leading coefficient of the running remainder,
+                // so the working coefficient the division looks at is zero there
+                let ec = lay.ec_per_block;
+                let mut blk: Vec<u8> = (0..len).map(|_| rng.next_u64() as u8).collect();
+                if b == 0 {
+                    let h = byte_header(v, level);
+                    blk[0] = h[0];
+                    blk[1] = h[1];
+                    blk[2] = (h[2] & 0xf0) | (blk[2] & 0x0f);
+                }
+                let mut p = 3 + rng.below(4);
+                while p < len {
+                    let rem = oracle::gf::rs_remainder(&blk[..p], ec);
+                    blk[p] = rem[0];
+                    if p + 1 < len && rng.chance(1, 2) {
+                        let rem2 = oracle::gf::rs_remainder(&blk[..p + 1], ec);
+                        blk[p + 1] = rem2[0];
+                    }
+                    p += 2 + rng.below(9);
+                }
+                blk
             }
         };
         out.extend(blk);
